@@ -67,6 +67,7 @@ CATALOGUE = {
     "schema-required-skips-aliased": ("utype/specs/json_schema/generator.py", "            if field.is_required(options or self.options):\n                # will count options.ignore_required in\n                required.append(name)", "            if field.is_required(options or self.options) and name == field.attname:\n                # will count options.ignore_required in\n                required.append(name)", ["C13"]),
     "schema-input-lists-noinput": ("utype/specs/json_schema/generator.py", "            if f.always_no_input(options or self.options):\n                return None", "            if f.always_no_input(options or self.options) and not f.no_input:\n                return None", ["C13"]),
     "schema-addition-false-omitted": ("utype/specs/json_schema/generator.py", "        addition = options.addition\n        if addition is not None:\n            if isinstance(addition, type):", "        addition = options.addition\n        if addition:\n            if isinstance(addition, type):", ["C13"]),
+    "map-args-consume-input": (R, "        for _key, _val in value.items():\n            with context.enter(route=f\"{_key}<key>\") as key_context:", "        for _key, _val in list(value.items()):\n            if isinstance(_val, list) and _val:\n                _val.pop()\n            with context.enter(route=f\"{_key}<key>\") as key_context:", ["C19"]),
     "datetime-offset-plus-only": (T, "        if '+' in str(data) or neg_offset:", "        if '+' in str(data):", ["C14"]),
 }
 
